@@ -135,6 +135,11 @@ CLAIMED["C11"]["text"] += _FLAGS % ("Flow<Await100>::try_read_100 (whole), Flow<
                                     "c11_code_try_read_100, c11_code_late_100, c11_code_new_flags")
 CLAIMED["C17"]["text"] += CODE2 % ("client/amended.rs AmendedRequest::analyze complete -- every rejection rule and the choice of the body's framing; version and method are values, the struct's two header accessors are function parameters",
                                    "c17_code_analyze: plain equality with the model's analyze for every request: same error variant in the same precedence, same framing, same flags")
+_CALLTR = (" Call<RecvResponse>::try_response itself (complete head or the partial-redirect work-around with its synthetic Connection: close, the 100 special case, the Content-Length text test, "
+           "for_response recorded in the reader) is translated from src/client/call.rs on every run and proved EQUAL to the model's call_try_response (%s, proofs/Gen2_equiv_call.v); the parsers (httparse) stay modelled.")
+CLAIMED["C05"]["text"] += _CALLTR % "c05_code_call_try_response"
+CLAIMED["C06"]["text"] += _CALLTR % "c06_code_call_try_response"
+CLAIMED["C05"]["technique"] += " + the code's own functions translated to Gallina on every run and proved equivalent to the model"
 for _p in ("C03", "C04", "C06", "C07", "C08", "C09", "C10", "C11", "C12", "C17"):
     CLAIMED[_p]["technique"] += " + the code's own functions translated to Gallina on every run and proved equivalent to the model"
 
